@@ -89,7 +89,13 @@ def _located(spec):
 def _perturb(rnd, spec):
     """a geometry that does NOT describe the same data locations"""
     s = dict(spec)
-    how = rnd.choice(["shift", "scale", "dims", "location", "dimension", "interior", "interior"])
+    how = rnd.choice(["shift", "scale", "dims", "location", "dimension", "interior", "interior", "crs"])
+    if how == "crs":
+        # same numbers, another (or no) coordinate reference system: other locations on the globe
+        s["crs"] = {None: "EPSG:32632", "EPSG:32632": rnd.choice([None, "EPSG:25832"])}.get(s.get("crs"), None)
+        if s["crs"] is None:
+            s.pop("crs")
+        return s, how
     if how == "interior" and (s["cls"] == "esri" or max(s["dims"]) < 3):
         how = "shift"
     if how == "interior":
@@ -167,8 +173,12 @@ class C15(Property):
                 a = dict(a, via_location_change=True)
             if rnd.random() < 0.15:
                 b = dict(b, via_location_change=True)
+            if rnd.random() < 0.1 and not a.get("uniform_axes") and not b.get("uniform_axes"):
+                a, b = dict(a, crs="EPSG:32632"), dict(b, crs="EPSG:32632")  # the same reference system on both sides
             return dict(kind="same", a=a, b=b, masked=masked, mseed=rnd.randrange(1 << 30))
         a, _ = rnd.choice(PAIRS)
+        if rnd.random() < 0.1 and not a.get("uniform_axes"):
+            a = dict(a, crs="EPSG:32632")
         b, how = _perturb(rnd, a)
         lay = rnd.choice(list(mg.layouts(len(b["dims"]))))
         if b["cls"] != "esri":
